@@ -63,6 +63,9 @@ def cases(tier, seed):
         yield {"kind": "factor_long_mixed", "term": k, "scale": [3, 2], "which": ["t2_2"]}
     yield {"kind": "factor_long_mixed", "term": 1, "scale": [5, 2], "which": ["t2_1", "t2_2"]}
     yield {"kind": "factor_long_mixed", "term": None, "scale": [1, 1], "which": ["t2_2"]}
+    for p2, p3 in ((2, 2), (3, 2), (2, 3), (5, 2)):
+        yield {"kind": "factor_merged", "p2": p2, "p3": p3, "which": ["t2_2"]}
+    yield {"kind": "factor_merged", "p2": 3, "p3": 2, "which": ["t2_1", "t2_2"]}
     if tier == "thorough":
         yield {"kind": "factor_roundtrip", "itmd": "t1_2", "extra": False}
         yield {"kind": "reduce", "itmd": "t1_2"}
@@ -84,6 +87,44 @@ def factor_power_check():
         ok, d = same_value(e0.sympy, back.sympy, [], model)
         if not ok:
             return False, f"factoring t2_1 in {e0} gives {fact}, which expands to a different value: {d}"
+    return True, ""
+
+
+MERGED_V_T22 = (
+    # sum_ij V^{ij}_{ab} t2_2^{cd}_{ij} with equal terms merged (printed form of
+    # the library's own expansion); {P} is the prefactor of the second term
+    r"- \frac{{V^{cd}_{ef}} {V^{ij}_{ab}} {V^{ij}_{ef}}}{2 \left({e_{c}} + {e_{d}} - {e_{i}} - {e_{j}}\right) \left({e_{e}} + {e_{f}} - {e_{i}} - {e_{j}}\right)} "
+    r"+ \frac{P2 {V^{ie}_{kc}} {V^{ij}_{ab}} {V^{jk}_{de}}}{\left({e_{c}} + {e_{d}} - {e_{i}} - {e_{j}}\right) \left({e_{d}} + {e_{e}} - {e_{j}} - {e_{k}}\right)} "
+    r"+ \frac{P3 {V^{ij}_{ab}} {V^{ik}_{ce}} {V^{je}_{kd}}}{\left({e_{c}} + {e_{d}} - {e_{i}} - {e_{j}}\right) \left({e_{c}} + {e_{e}} - {e_{i}} - {e_{k}}\right)} "
+    r"- \frac{{V^{ij}_{ab}} {V^{ij}_{kl}} {V^{kl}_{cd}}}{2 \left({e_{c}} + {e_{d}} - {e_{i}} - {e_{j}}\right) \left({e_{c}} + {e_{d}} - {e_{k}} - {e_{l}}\right)}"
+)
+
+
+def factor_merged_check(case):
+    """the merged form: the particle-hole terms stand for two terms of the
+    definition each (permutational symmetry of the remainder)"""
+    from adcgen.func import import_from_sympy_latex
+    text = MERGED_V_T22.replace("P2", str(case["p2"])).replace("P3", str(case["p3"]))
+    full = import_from_sympy_latex(text, convert_default_names=True)
+    full.make_real()
+    full.set_target_idx("abcd")
+    a, b, c, d = get_symbols("abcd")
+    model = HFModel(13)
+    ref = Intermediates().available["t2_2"].tensor(indices="ijcd")
+    if case["p2"] == 2 and case["p3"] == 2:
+        # the text is the expansion of the product
+        from adcgen.sympy_objects import AntiSymmetricTensor
+        i, j = get_symbols("ij")
+        prod = Expr(AntiSymmetricTensor("V", (i, j), (a, b), 1) * ref.sympy, real=True, target_idx=[a, b, c, d])
+        ok, dd = same_value(full.sympy, prod.copy().expand_intermediates().expand().sympy, [a, b, c, d], model)
+        if not ok:
+            return False, f"reference text is not the expansion of V t2_2: {dd}"
+    fact = factor_intermediates(full.copy(), types_or_names=case["which"])
+    back = fact.copy().expand_intermediates().expand()
+    ok, dd = same_value(full.sympy, back.sympy, [a, b, c, d], model)
+    if not ok:
+        return False, (f"factoring {case['which']} in the merged expansion of V^ij_ab t2_2^cd_ij with prefactors "
+                       f"({case['p2']}, {case['p3']}) and expanding again changes the value: {dd}; factored: {str(fact)[:400]}")
     return True, ""
 
 
@@ -117,6 +158,8 @@ def check(case):
         return factor_power_check()
     if case["kind"] == "factor_long_mixed":
         return factor_long_mixed_check(case)
+    if case["kind"] == "factor_merged":
+        return factor_merged_check(case)
     itmd = Intermediates().available[case["itmd"]]
     idx = itmd.default_idx
     targets = get_symbols(idx)
